@@ -3,7 +3,7 @@
 From Coq Require Import String.
 From Coq Require Import List Ascii ZArith Bool.
 From CGV Require Import Base.PyBase Base.PyVal Base.NxGraph Dialect.DialectImpl Reader.ReaderImpl Reader.Grammar
-     Reader.ReaderCheck Reader.Lin Reader.ReaderSim Reader.ReaderMult Reader.ReaderUnit Reader.ReaderUnitLong
+     Reader.ReaderCheck Reader.Lin Reader.ReaderSim Reader.ReaderMult Reader.ReaderUnit Reader.ReaderUnitLong Reader.ReaderEnd
      Gen.ReaderEnumGen Reader.ReaderSmall.
 Import ListNotations.
 Open Scope Z_scope.
@@ -25,20 +25,26 @@ Proof.
   exists [Item (S "A") [] None None [Branch [Item (S "B") [] None None [Branch [nd "C"] None None]] two None]].
   vm_compute. repeat split; discriminate.
 Qed.
-(** {[#A]|3=[#B]}: ValueError *)
-Theorem C05_refuted_nodemult_sym : exists a,
-  wf fo0 a = true /\ class_C05 true a = 2%nat /\ model_C05 fo0 true a None <> 0%nat.
-Proof.
-  exists [Item (S "A") [] (Some [3%nat]) (Some SDouble) []; nd "B"].
-  vm_compute. repeat split; discriminate.
-Qed.
-(** {[#A]([#B])|1}: UnboundLocalError base_anchor *)
-Theorem C05_refuted_bmult_one : exists a,
-  wf fo0 a = true /\ class_C05 true a = 3%nat /\ model_C05 fo0 true a None <> 0%nat.
-Proof.
-  exists [Item (S "A") [] None None [Branch [nd "B"] (Some (None, [1%nat])) None]].
-  vm_compute. repeat split; discriminate.
-Qed.
+(** REPAIRED classes: their former refutation witnesses are now read as the same graph as the longhand, with
+    the identity numbering (model_C05 … None = 0) *)
+(** {[#A]|3=[#B]} (fix f80d9d3) *)
+Example C05_fixed_nodemult_sym : model_C05 fo0 true [Item (S "A") [] (Some [3%nat]) (Some SDouble) []; nd "B"] None = 0%nat.
+Proof. vm_compute. reflexivity. Qed.
+(** {[#A]([#B])|1} (fix cdbe172) *)
+Example C05_fixed_bmult_one : model_C05 fo0 true [Item (S "A") [] None None [Branch [nd "B"] (Some (None, [1%nat])) None]] None = 0%nat.
+Proof. vm_compute. reflexivity. Qed.
+(** {[#X][#A]([#B])([#D])|2[#C]} (fix 16f1604) *)
+Example C05_fixed_sibling_before_mult :
+  model_C05 fo0 true [nd "X"; Item (S "A") [] None None [Branch [nd "B"] None None; Branch [nd "D"] two None]; nd "C"] None = 0%nat.
+Proof. vm_compute. reflexivity. Qed.
+(** [#A]([#B])|2 without braces (fix a4965aa) *)
+Example C05_fixed_mult_at_end : model_C05 fo0 false [Item (S "A") [] None None [Branch [nd "B"] two None]] None = 0%nat.
+Proof. vm_compute. reflexivity. Qed.
+(** {[#A]#([#B]|2)|2} (fix 9dbeb83) *)
+Example C05_fixed_nodemult_order_in_unit :
+  model_C05 fo0 true [Item (S "A") [] None (Some STriple) [Branch [Item (S "B") [] (Some [2%nat]) None []] two None]] None = 0%nat.
+Proof. vm_compute. reflexivity. Qed.
+
 (** {[#A]([#B]1[#C][#D]1)|2}: the ring bond of the second copy is missing.  The oracle is asked
     with EVERY renumbering that could matter here replaced by the identity, which is the only
     candidate because the edge counts differ (7 against 8). *)
@@ -56,10 +62,13 @@ Qed.
 (** UNBOUNDED, partial (node multipliers).  For every flat string of the grammar (see C04.v) reading the
     shorthand and reading the string with every node multiplier written out give the SAME result: the same
     graph with the same numbering and iteration orders (or the same error).  [expand_lin l] contains no
-    multiplier.  Missing from the full statement: the symbol after a node multiplier (class nodemult_sym), texts without braces. *)
+    multiplier.  Texts without braces: C05_nodes_partial_nobrace. *)
 Theorem C05_nodes_partial : forall fo l, lins_ok fo l = true ->
   read_cgsmiles fo (base_text l) = read_cgsmiles fo (base_text (expand_lin l)).
 Proof. exact reader_nodes_shorthand. Qed.
+Theorem C05_nodes_partial_nobrace : forall fo l, lins_ok fo l = true ->
+  read_cgsmiles fo (lins_str l) = read_cgsmiles fo (lins_str (expand_lin l)).
+Proof. exact reader_nodes_shorthand_nobrace. Qed.
 Theorem C05_longhand_has_no_multiplier : forall l, forallb (fun i => negb (is_some (l_mult i))) (expand_lin l) = true.
 Proof. exact expand_lin_no_mult. Qed.
 (** the specification-level fact behind it: the denotation is invariant under writing multipliers out *)
@@ -76,15 +85,15 @@ Proof. vm_compute. repeat split. eexists. split; reflexivity. Qed.
 
 (** UNBOUNDED, partial (BRANCH multipliers).  A text is a sequence of flat items and UNITS
     "anchor ( simple chain ) sym? |n sym?" standing on the top-level chain: the multiplied branch is the first
-    branch of its anchor, n >= 2, no ring marker and no nested branch inside the unit, a multiplied node
-    inside the unit is reached by a single bond (Reader/ReaderUnit.v: [segs_ok]).  For every such text the
+    branch of its anchor, n >= 1, no ring marker and no nested branch inside the unit; node multipliers inside
+    the unit, with or without a symbol behind the count, are allowed (Reader/ReaderUnit.v: [segs_ok]).  For every such text the
     reader model reads the shorthand and the longhand ([segs_long]: every unit written out n times, consecutive
     anchors joined by the symbol before '|', the symbol after |n leaving the last anchor) as the SAME graph
     with the SAME numbering; likewise with the node multipliers written out too.  This is the shape of the
     documented polymer examples, e.g. {[#PMA]([#PEO][#PEO])|3}.
-    Missing from the full statement: units inside other branches, multiplied branches that are not the first
-    branch of their anchor, nested branches / rings inside units, n = 1 (all refuted below or only bounded:
-    C05_small), texts without braces. *)
+    Missing from the full statement: units inside other branches and multiplied branches that are not the
+    first branch of their anchor (both only bounded: C05_small), nested branches / rings inside units
+    (refuted below), texts without braces. *)
 Theorem C05_branch_partial : forall fo l, segs_ok fo l = true ->
   read_cgsmiles fo (segs_text l) = read_cgsmiles fo (base_text (segs_long l)).
 Proof. exact reader_units_shorthand. Qed.
@@ -123,6 +132,7 @@ Proof. exact C05_small_nonvacuous. Qed.
 Print Assumptions C05_branch_partial.
 Print Assumptions C05_branch_partial_expanded.
 Print Assumptions C05_nodes_partial.
+Print Assumptions C05_nodes_partial_nobrace.
 Print Assumptions C05_denote_expand.
 Print Assumptions C05_small.
 (** the remaining classes: an ISOMORPHISM INVARIANT of the two graphs differs, so no renumbering exists *)
@@ -132,29 +142,6 @@ Theorem C05_refuted_nested_in_unit : exists a,
   /\ degree_profile (short_of fo0 true a) <> degree_profile (long_of fo0 true a).
 Proof.
   exists [nd "X"; Item (S "A") [] None None [Branch [nd "B"; Item (S "G") [] None None [Branch [nd "D"] None None]; nd "E"] three None]; nd "C"].
-  vm_compute. repeat split; discriminate.
-Qed.
-(** {[#X][#A]([#B])([#D])|2[#C]}: one node named A against two (the anchor copy is named B) *)
-Theorem C05_refuted_sibling_before_mult : exists a,
-  wf fo0 a = true /\ class_C05 true a = 6%nat
-  /\ count_nodes_named (S "A") (short_of fo0 true a) <> count_nodes_named (S "A") (long_of fo0 true a).
-Proof.
-  exists [nd "X"; Item (S "A") [] None None [Branch [nd "B"] None None; Branch [nd "D"] two None]; nd "C"].
-  vm_compute. repeat split; discriminate.
-Qed.
-(** [#A]([#B])|2 without braces: IndexError, whatever the renumbering *)
-Theorem C05_refuted_mult_at_end : exists a,
-  wf fo0 a = true /\ class_C05 false a = 7%nat /\ forall m, model_C05 fo0 false a (Some m) <> 0%nat.
-Proof.
-  exists [Item (S "A") [] None None [Branch [nd "B"] two None]].
-  split; [vm_compute; reflexivity|]. split; [vm_compute; reflexivity|]. intros m. vm_compute. discriminate.
-Qed.
-(** {[#A]#([#B]|2)|2}: three edges of order 3 against two *)
-Theorem C05_refuted_nodemult_order_in_unit : exists a,
-  wf fo0 a = true /\ class_C05 true a = 9%nat
-  /\ count_edges_order 3 (short_of fo0 true a) <> count_edges_order 3 (long_of fo0 true a).
-Proof.
-  exists [Item (S "A") [] None (Some STriple) [Branch [Item (S "B") [] (Some [2%nat]) None []] two None]].
   vm_compute. repeat split; discriminate.
 Qed.
 (** {[#Q]([#A]([#X])[#D]([#B])|2[#E])}: nine nodes against eight *)
@@ -167,6 +154,4 @@ Proof.
 Qed.
 
 Print Assumptions C05_refuted_double_close.
-Print Assumptions C05_refuted_nodemult_sym.
-Print Assumptions C05_refuted_bmult_one.
 Print Assumptions C05_refuted_ring_in_unit.
